@@ -17,6 +17,7 @@ From Ygot Require Import Tree.Tree Scalar.Dec Scalar.Base64 Tree.Codec Tree.Code
 From Ygot Require Import Tree.TreeOps Tree.Render Tree.Unmarshal Tree.RoundTrip Tree.RoundTripObjProofs Tree.RoundTripProofs.
 From Ygot Require Import Tree.KeyCodec Tree.Leaves Tree.Notif Tree.Node Tree.SetReq Path.PathRel.
 From Ygot Require Import Tree.KeyCodecProofs Tree.NodeStepProofs Tree.GnmiRt Tree.GnmiRtProofs Tree.GnmiRtOrd.
+From Ygot Require Tree.NodeFrameProofs.   (* gotype_key_agree only; not imported *)
 (* ====================================================================================== *)
 (* 1. Field lists and entry lists                                                          *)
 (* ====================================================================================== *)
@@ -209,8 +210,9 @@ End FindFieldDel.
 
 Section DelSteps.
   Variable env : enum_env.
+  Variable fo : float_oracle.
   Variable ko : key_oracle.
-  Notation DR := (del_rec env ko false).
+  Notation DR := (del_rec env fo ko false).
 
   (* through a container / list field *)
   Lemma del_rec_struct : forall f s sfs fs fi ss a e0 prest,
@@ -352,17 +354,18 @@ End DelSteps.
 
 Section DelListEq.
   Variable env : enum_env.
+  Variable fo : float_oracle.
   Variable ko : key_oracle.
-  Notation DR := (del_rec env ko false).
+  Notation DR := (del_rec env fo ko false).
 
   Lemma del_rec_list_single : forall f k mn mx sfs es e0 prest pk,
     al_find k (ekeys e0) = Some pk ->
     DR (S f) (SList false [k] mn mx sfs) (Some (TList es)) (e0 :: prest) =
-      dfirst_f env ko f (SList false [k] mn mx sfs) sfs prest (Some (TList es)) k pk es es.
+      dfirst_f env fo ko f (SList false [k] mn mx sfs) sfs prest (Some (TList es)) k pk es es.
   Proof.
     intros f k mn mx sfs es e0 prest pk Hf. cbn [del_rec]. rewrite Hf.
     match goal with |- ?F es = _ =>
-      assert (G : forall l, F l = dfirst_f env ko f (SList false [k] mn mx sfs) sfs prest (Some (TList es)) k pk es l) end.
+      assert (G : forall l, F l = dfirst_f env fo ko f (SList false [k] mn mx sfs) sfs prest (Some (TList es)) k pk es l) end.
     { induction l as [|[mk e] more IH]; [reflexivity|].
       cbn [dfirst_f]. destruct (single_key_str env ko sfs k mk (fields_of e)); try reflexivity.
       destruct (str_eqb a pk); [reflexivity | apply IH]. }
@@ -371,11 +374,11 @@ Section DelListEq.
 
   Lemma del_rec_list_multi : forall f k1 k2 ks mn mx sfs es e0 prest,
     DR (S f) (SList false (k1 :: k2 :: ks) mn mx sfs) (Some (TList es)) (e0 :: prest) =
-      dall_f env ko f (SList false (k1 :: k2 :: ks) mn mx sfs) sfs (k1 :: k2 :: ks) (ekeys e0) prest es es.
+      dall_f env fo ko f (SList false (k1 :: k2 :: ks) mn mx sfs) sfs (k1 :: k2 :: ks) (ekeys e0) prest es es.
   Proof.
     intros. cbn [del_rec].
     match goal with |- ?F es es = _ =>
-      assert (G : forall l acc, F l acc = dall_f env ko f (SList false (k1 :: k2 :: ks) mn mx sfs) sfs
+      assert (G : forall l acc, F l acc = dall_f env fo ko f (SList false (k1 :: k2 :: ks) mn mx sfs) sfs
                                                (k1 :: k2 :: ks) (ekeys e0) prest l acc) end.
     { induction l as [|[mk e] more IH]; intros acc; [reflexivity|].
       cbn [dall_f]. destruct (keys_match env ko false false (ekeys e0) (k1 :: k2 :: ks) mk) as [[|]| |];
@@ -864,7 +867,7 @@ Section OListStep.
   Definition oappend_f (acc : list (list scalar * tree)) : option tree * result nat :=
     if negb (Nat.eqb nparsed (length keys)) then (Some (TList acc), Err)
     else
-      match make_ordered_entry env sfs keys ek with
+      match make_ordered_entry env fo ko sfs keys ek with
       | Ok (mk, nfs) =>
           match tl_find mk acc with
           | Some _ => (Some (TList acc), Err)
@@ -924,13 +927,13 @@ End OListStep.
 
 Lemma set_rec_olist env fo ko o tv : forall f keys mn mx sfs es e0 prest,
   set_rec env fo ko o tv (S f) (SList true keys mn mx sfs) (Some (TList es)) (e0 :: prest) =
-    match ordered_keys_parse env sfs keys (ekeys e0) with
+    match ordered_keys_parse env fo ko sfs keys (ekeys e0) with
     | Ok nparsed => oall_f env fo ko o tv f (SList true keys mn mx sfs) sfs keys (ekeys e0) prest nparsed es es O
     | Err => (Some (TList es), Err)
     | Panic => (Some (TList es), Panic)
     end.
 Proof.
-  intros. cbn [set_rec]. destruct (ordered_keys_parse env sfs keys (ekeys e0)) as [np| |]; reflexivity.
+  intros. cbn [set_rec]. destruct (ordered_keys_parse env fo ko sfs keys (ekeys e0)) as [np| |]; reflexivity.
 Qed.
 
 (* ====================================================================================== *)
@@ -962,8 +965,8 @@ Section OEntryLift.
   Lemma okeys_codec : forall ks mk kk kk', (forall k, In k ks -> key_agreeb esfs k = true) -> NoDup ks ->
     okeys_rtb env ko esfs ks mk = true -> mapkey_strs env ko ks mk = Ok kk ->
     (forall k, In k ks -> al_find k kk' = al_find k kk) ->
-    make_ordered_entry env esfs ks kk' = Ok (mk, key_fields esfs ks mk)
-    /\ ordered_keys_parse env esfs ks kk' = Ok (length ks).
+    make_ordered_entry env fo ko esfs ks kk' = Ok (mk, key_fields esfs ks mk)
+    /\ ordered_keys_parse env fo ko esfs ks kk' = Ok (length ks).
   Proof.
     destruct oesfs_facts as (_ & Hd & _).
     induction ks as [|k ks IH]; intros mk kk kk' Ha Hdk Hw Hs Hf.
@@ -981,9 +984,9 @@ Section OEntryLift.
       destruct (IH vs r kk' (fun k0 H0 => Ha k0 (or_intror H0)) Hdk' Hw Er) as [IH1 IH2].
       { intros k0 Hin. rewrite (Hf k0 (or_intror Hin)). apply al_find_insert_other. intros ->. contradiction. }
       split.
-      + cbn [make_ordered_entry]. rewrite Hfk, E1, Eg. cbn [bind]. rewrite IH1. cbn [bind fst snd key_fields].
+      + cbn [make_ordered_entry]. rewrite Hfk, E1, (NodeFrameProofs.gotype_key_agree env fo ko _ _ _ Eg). cbn [bind]. rewrite IH1. cbn [bind fst snd key_fields].
         now rewrite E3.
-      + cbn [ordered_keys_parse]. rewrite Hfk, E1, Eg. cbn [bind]. rewrite IH2. reflexivity.
+      + cbn [ordered_keys_parse]. rewrite Hfk, E1, (NodeFrameProofs.gotype_key_agree env fo ko _ _ _ Eg). cbn [bind]. rewrite IH2. reflexivity.
   Qed.
 
   (* the entries already in the list when the entry with key mk is appended and filled *)
@@ -1096,7 +1099,7 @@ Section Chain.
   Variable ko : key_oracle.
 
   Definition del_noop (need : dpath -> nat) (s : schema) (c : tree) (q : dpath) : Prop :=
-    forall fuel, (need q <= fuel)%nat -> del_rec env ko false fuel s (Some c) q = (Some c, Ok tt).
+    forall fuel, (need q <= fuel)%nat -> del_rec env fo ko false fuel s (Some c) q = (Some c, Ok tt).
 
   (* the groups applied one after the other.  A group whose container is the node itself
      (empty relative path) finds the node empty: its parent has no such child yet *)
@@ -1169,7 +1172,7 @@ Section Chain.
       intros _ fuel Hfuel. cbn [g_shift g_q] in *. unfold need_struct in Hfuel.
       destruct fuel as [|f]; [lia|].
       destruct (pre ++ g_q g) as [|e0 prest] eqn:Epath; [congruence|].
-      rewrite (del_rec_struct env ko f s sfs S fi ss a e0 prest Hs Hok Hin Ha Hg2). cbv zeta.
+      rewrite (del_rec_struct env fo ko f s sfs S fi ss a e0 prest Hs Hok Hin Ha Hg2). cbv zeta.
       rewrite Hto, <- Epath.
       destruct (g_q g) as [|q0 qr] eqn:Eq.
       + rewrite app_nil_r, Nat.eqb_refl.
@@ -1186,7 +1189,7 @@ Section Chain.
         * rewrite Hget, (Hdel ltac:(discriminate) f Hf), Hp.
           now rewrite (field_set_same (go_names sfs) S (f_go fi) c Hd Hsub Hget).
         * rewrite Hnone. destruct f as [|f']; [rewrite <- Epath, app_length in Hfuel; simpl in Hfuel; lia|].
-          rewrite (del_rec_none env ko f' ss q0 qr Hlf), prune_child_none.
+          rewrite (del_rec_none env fo ko f' ss q0 qr Hlf), prune_child_none.
           now rewrite field_remove_absent.
     - intros E. cbn [g_shift g_q] in E. congruence.
     - exact Hne.
@@ -1225,7 +1228,7 @@ Section EntryMid.
   Hypothesis Hsch : gn_schemab ss = true.
 
   Notation SR tv := (set_rec env fo ko rt_opts tv).
-  Notation DR := (del_rec env ko false).
+  Notation DR := (del_rec env fo ko false).
 
   Variable nm : str.
   Variable mk : list scalar.
@@ -1332,8 +1335,8 @@ Section EntryMid.
   (* DeleteNode below the entry under mk that leaves the entry as it is leaves the list as it is *)
   Lemma del_noop_list : forall pre post q ecur,
     mid_ok pre -> mid_ok post -> before_ok pre -> key_leaves esfs keys mk (fields_of ecur) ->
-    q <> [] -> del_noop env ko need_struct ss ecur q ->
-    del_noop env ko need_list ss (TList (pre ++ (mk, ecur) :: post)) (el :: q).
+    q <> [] -> del_noop env fo ko need_struct ss ecur q ->
+    del_noop env fo ko need_list ss (TList (pre ++ (mk, ecur) :: post)) (el :: q).
   Proof.
     intros pre post q ecur Hpre Hpost Hbef Hl Hq Hdel fuel Hfuel.
     destruct (esfs_facts keys mn mx esfs Hsch) as (Hok & Hd & Hkne & Hdk & Ha & Hdg).
@@ -1345,9 +1348,9 @@ Section EntryMid.
     destruct keys_shape as [[k Ek]|(k & k2 & ks & Ek)].
     - rewrite Ek in HF. inversion HF as [|k0 v ks0 vs (pk & Es & Fs) HF' E1 E2].
       inversion HF' as [E3 E4|]. rewrite <- E4 in E2. symmetry in E2.
-      unfold ss. rewrite Ek at 1. rewrite (del_rec_list_single env ko f k mn mx esfs _ el q pk Fs).
+      unfold ss. rewrite Ek at 1. rewrite (del_rec_list_single env fo ko f k mn mx esfs _ el q pk Fs).
       rewrite <- Ek. fold ss. rewrite <- E2.
-      rewrite (dfirst_f_hit env ko f ss esfs q _ k pk _ pre mk ecur post).
+      rewrite (dfirst_f_hit env fo ko f ss esfs q _ k pk _ pre mk ecur post).
       + rewrite (Hdel f) by (unfold need_struct; lia). replace (is_empty_cont ecur) with false by (rewrite Ec; reflexivity).
         now rewrite Hsame.
       + eapply mid_single; eauto.
@@ -1355,9 +1358,9 @@ Section EntryMid.
         rewrite (single_key_str_leaf env ko keys mn mx esfs Hsch k mk (fields_of ecur) v); auto.
         rewrite Ek. now left.
       + exact Hq.
-    - unfold ss. rewrite Ek at 1. rewrite (del_rec_list_multi env ko f k k2 ks mn mx esfs _ el q).
+    - unfold ss. rewrite Ek at 1. rewrite (del_rec_list_multi env fo ko f k k2 ks mn mx esfs _ el q).
       rewrite <- Ek. fold ss. cbn [ekeys el].
-      rewrite (dall_f_hit env ko f ss esfs keys kk q pre mk ecur post _ kk).
+      rewrite (dall_f_hit env fo ko f ss esfs keys kk q pre mk ecur post _ kk).
       + rewrite (Hdel f) by (unfold need_struct; lia). replace (is_empty_cont ecur) with false by (rewrite Ec; reflexivity).
         now rewrite Hsame.
       + now apply mid_others_false.
@@ -1751,7 +1754,7 @@ Section MainOrd2.
           apply cstr_eqb_eq in Hord.
           destruct fuel as [|f]; [unfold need_struct in Hfuel; lia|].
           cbn [path_of_names map] in Eff |- *.
-          rewrite (del_rec_ordpartial env ko f s sfs T fi' _ _ Hs Eff).
+          rewrite (del_rec_ordpartial env fo ko f s sfs T fi' _ _ Hs Eff).
           rewrite field_remove_absent; [reflexivity|]. now rewrite Hord, Hgo.
         * intros Eq. f_equal. apply Hone; [|exact Epv].
           unfold ord_field_okb in Hord. rewrite Esf, Epaths in Hord.
@@ -2077,7 +2080,7 @@ Section C02Ord.
 
   (* one atomic notification: DeleteNode of its prefix, then its updates *)
   Lemma apply_group (Inv : tree -> Prop) S c g c' :
-    (g_q g <> [] -> del_noop env ko need_struct S c (g_q g)) -> (g_q g = [] -> c = TCont []) ->
+    (g_q g <> [] -> del_noop env fo ko need_struct S c (g_q g)) -> (g_q g = [] -> c = TCont []) ->
     Run env fo ko Inv need_struct S c (g_ups g) c' ->
     unmarshal_setrequest env fo ko S rt_sropts c (req_of_notif (notif_of_grp g)) = (c', SROk).
   Proof.
@@ -2086,7 +2089,7 @@ Section C02Ord.
     cbn [run_phase]. unfold delete_step.
     cbn [join_paths empty_gp gp_of origin target elems nil_b negb andb].
     rewrite app_nil_r. unfold delete_node_st. cbn [so_shadow rt_sropts].
-    assert (Hd : del_rec env ko false (2 * length (g_q g) + 2) S (Some c) (g_q g) = (Some c, Ok tt)).
+    assert (Hd : del_rec env fo ko false (2 * length (g_q g) + 2) S (Some c) (g_q g) = (Some c, Ok tt)).
     { destruct (g_q g) as [|q0 qr] eqn:Eq.
       - rewrite (Hemp eq_refl). reflexivity.
       - apply Hdel; [discriminate|]. unfold need_struct. lia. }
